@@ -162,6 +162,9 @@ class Report:
                 if key not in [h[0] for h in self.known_hits]:
                     self.known_hits.append((key, k.get("what_fails", "")))
                 return False
+        self.extra.setdefault("violation_keys", {})
+        kk = (key or kind).split(":")[0] + ((":" + (key or "").split(":")[1]) if key and key.count(":") >= 1 and key.split(":")[0] in ("replaces-O", "noresult", "empty", "group") else "")
+        self.extra["violation_keys"][kk] = self.extra["violation_keys"].get(kk, 0) + 1
         if len(self.violations) < 25:
             path = write_replay(self.prop, kind, case, observed, expected, extra)
             self.violations.append((path, no_input))
